@@ -257,12 +257,15 @@ def session_probes(rep):
 
 # ------------------------------------------------------------------ undo with standard-library objects (real code only)
 
-SHOP_STORY = ("from bardic.stdlib.economy import Wallet, Shop\nfrom bardic.stdlib.inventory import Inventory\n"
-              ":: Start\n~ w = Wallet(40)\n~ inv = Inventory(20)\n"
+SHOP_STORY = ("from bardic.stdlib.economy import Wallet, Shop\nfrom bardic.stdlib.inventory import Inventory\nfrom bardic.stdlib.relationship import Relationship\n"
+              ":: Start\n~ w = Wallet(40)\n~ inv = Inventory(20)\n~ alex = Relationship('Alex', 50, 50, 0)\n~ alex.mood = 'wary'\n~ w.owner = 'you'\n"
               "~ shop = Shop([{'name': 'Rope', 'weight': 2, 'value': 10}, {'name': 'Gem', 'weight': 1, 'value': 30}], sell_back_rate=0.5)\n"
               "~ log = []\nMarket.\n+ [Enter] -> Stall\n\n"
               ":: Stall\nGold {w.gold}, carrying {len(inv.items)}, stock {len(shop.items)}.\n"
-              "+ [Buy rope] -> Buy('Rope')\n+ [Buy gem] -> Buy('Gem')\n+ [Sell rope] -> Sell('Rope')\n+ [Sell gem] -> Sell('Gem')\n+ [Haggle] -> Haggle\n\n"
+              "Alex is {alex.mood} ({alex.trust}).\n"
+              "+ [Buy rope] -> Buy('Rope')\n+ [Buy gem] -> Buy('Gem')\n+ [Sell rope] -> Sell('Rope')\n+ [Sell gem] -> Sell('Gem')\n+ [Haggle] -> Haggle\n+ [Chat] -> Chat\n+ [Trip] -> Trip\n\n"
+              ":: Chat\n~ alex.add_trust(7)\n~ alex.mood = 'warm' if alex.mood == 'wary' else 'wary'\n~ alex.topics_discussed.add('weather')\nYou chat. Alex is {alex.mood}.\n+ [Back] -> Stall\n\n"
+              ":: Trip\n~ alex.mood = 'cross'\n~ w.spend(3)\n~ oops = 1 % 0\nNever shown.\n+ [Back] -> Stall\n\n"
               ":: Buy(what)\n~ ok = shop.buy(what, w, inv)\n~ log.append(('buy', what, ok))\nBought {what}: {ok}.\n+ [Back] -> Stall\n\n"
               ":: Sell(what)\n~ ok = shop.sell(what, w, inv)\n~ log.append(('sell', what, ok))\nSold {what}: {ok}.\n+ [Back] -> Stall\n\n"
               ":: Haggle\n~ shop.set_discount(0.5)\nCheaper now.\n+ [Back] -> Stall\n")
@@ -299,8 +302,11 @@ def undo_sessions(rep, n_walks):
                     break
                 i = r.randrange(n)
                 ops.append({"op": "choose", "i": i})
-                with quiet():
-                    e.choose(i)
+                try:
+                    with quiet():
+                        e.choose(i)
+                except (RuntimeError, ValueError):
+                    pass        # author code failed during the choice: one undo must still restore the situation before it (C15)
                 past.append(before)
                 past = past[-50:]
                 future = []
